@@ -71,7 +71,7 @@ fn judge_inv(
     world: &World,
     expect_noop: bool,
 ) -> bool {
-    let prop: &str = if ctx.prop == "C13" { if case % 3 == 0 { "C17" } else { "C09" } } else { &ctx.prop };
+    let prop: &str = if ctx.prop == "C13" { if case % 3 == 0 { "C17" } else { "C09" } } else if ctx.prop == "C15" { "C09" } else { &ctx.prop };
     let mk_case = |out: &InvOut| -> J {
         J::obj()
             .with("case", J::i(case))
@@ -663,7 +663,7 @@ pub fn random_edit(prop: &str, rng: &mut Rng, world: &mut World) -> Option<J> {
 fn history_case(ctx: &Ctx, dir: &std::path::Path, case: u64, seed: u64, rep: &mut Report) {
     // C13 borrows C09's workload (dependencies reported under several spellings) and, every third
     // case, C17's (the manifest itself named under another spelling with -f)
-    let prop: &str = if ctx.prop == "C13" { if case % 3 == 0 { "C17" } else { "C09" } } else { &ctx.prop };
+    let prop: &str = if ctx.prop == "C13" { if case % 3 == 0 { "C17" } else { "C09" } } else if ctx.prop == "C15" { "C09" } else { &ctx.prop };
     let mut rng = Rng::new(seed);
     let opts = hist_opts(prop, &mut rng, ctx.thorough());
     let mut proj = gen_project(&mut rng, &opts);
